@@ -32,10 +32,16 @@ AllowedRead(e) ==
 
 AllowedWrite(e) == e.failed
 
+\* Two streams read at the same time (the first reader stalls at a structural position while the second is read
+\* completely): each read gives what it gives when run alone ("the same tokens and CIDs as decoding the same
+\* bytes from memory, however the stream is chunked" - and whatever else is being read meanwhile).
+AllowedInterleaved(e) == e.okA /\ e.okB /\ ~e.panic
+
 TraceNext ==
   /\ l <= Len(Trace) /\ l' = l + 1 /\ UNCHANGED m
   /\ \/ Trace[l].ev = "ReadFault" /\ AllowedRead(Trace[l])
      \/ Trace[l].ev = "WriteFault" /\ AllowedWrite(Trace[l])
+     \/ Trace[l].ev = "Interleaved" /\ AllowedInterleaved(Trace[l])
 TraceSpec == TraceInit /\ [][TraceNext]_<<l, m>>
 TraceAccepted ==
   LET d == TLCGet("stats").diameter IN
